@@ -422,3 +422,243 @@ func slowScale(c *vkit.Case) {
 		p.grp.StopAndWait()
 	}
 }
+
+// trigEndSweep: one call of the trigger function is aimed at the END of a run of f (f spins for a
+// short, swept time; the caller spins a swept offset after the run was triggered), and the caller
+// then BLOCKS on a channel at once (it leaves its P, unlike the spinning callers of trigSweep).
+// A run that began after that call must follow; nothing else triggers in the meantime.
+func trigEndSweep(c *vkit.Case) {
+	r := c.R
+	rnd := c.Rand
+	rounds := r.Scale(12000, 60000)
+	yield := runtime.GOMAXPROCS(0) < 4
+	if yield {
+		rounds /= 10
+	}
+	grp := xsync.NewGroup(context.Background())
+	var begun, ended atomic.Int64
+	var fSpin atomic.Int64
+	f := func(ctx context.Context) {
+		begun.Add(1)
+		sink := 0
+		for i := fSpin.Load(); i > 0; i-- {
+			sink += int(i)
+		}
+		_ = sink
+		ended.Add(1)
+	}
+	pot := c.Index%4 == 3
+	var trig func()
+	if pot {
+		trig = grp.PeriodicOrTrigger(time.Hour, 0, f)
+	} else {
+		trig = grp.Trigger(f)
+	}
+	var round, done atomic.Int64
+	var quit atomic.Bool
+	var off atomic.Int64
+	var seenB atomic.Int64
+	park := make(chan struct{})
+	var wg sync.WaitGroup
+	wg.Add(1)
+	go func() {
+		defer wg.Done()
+		last := int64(0)
+		for {
+			for round.Load() == last {
+				if quit.Load() {
+					return
+				}
+				if yield {
+					runtime.Gosched()
+				}
+			}
+			last++
+			sink := 0
+			for i := off.Load(); i > 0; i-- {
+				sink += int(i)
+			}
+			_ = sink
+			b := begun.Load()
+			trig()
+			seenB.Store(b)
+			done.Add(1)
+			<-park // leave the P at once
+		}
+	}()
+	stopAll := func() {
+		quit.Store(true)
+		wg.Wait()
+		grp.StopAndWait()
+	}
+	spin := func(cond func() bool, d time.Duration) bool {
+		t0 := time.Now()
+		for i := 0; ; i++ {
+			if cond() {
+				return true
+			}
+			if yield {
+				runtime.Gosched()
+			}
+			if i%64 == 63 && time.Since(t0) > d {
+				return cond()
+			}
+		}
+	}
+	judged := 0
+	for n := int64(1); n <= int64(rounds); n++ {
+		spin(func() bool { return begun.Load() == ended.Load() }, time.Second)
+		fs := int64(rnd.Intn(600))
+		fSpin.Store(fs)
+		off.Store(fs/2 + int64(rnd.Intn(int(fs)+200)))
+		trig() // run A
+		round.Store(n)
+		if !spin(func() bool { return done.Load() == n }, 30*time.Second) {
+			r.Inconclusive("trig-end-sweep: the caller did not return from the trigger function within 30 s")
+			park <- struct{}{}
+			stopAll()
+			return
+		}
+		answered := func() bool { return begun.Load() > seenB.Load() }
+		if !spin(answered, 5*time.Millisecond) {
+			verdict := "inconclusive"
+			var dump string
+			hard := time.Now().Add(60 * time.Second)
+			for time.Now().Before(hard) {
+				a, okA := loopParked()
+				time.Sleep(200 * time.Millisecond)
+				if answered() {
+					verdict = "late"
+					break
+				}
+				b, okB := loopParked()
+				if okA && okB && a == b && !answered() {
+					verdict, dump = "never", b
+					break
+				}
+				if !okA && !okB && !answered() && vkit.CountGoroutines(func(g vkit.G) bool {
+					return g.Has("xsync.(*Group).Trigger") || g.Has("xsync.(*Group).PeriodicOrTrigger")
+				}) == 0 {
+					// an implementation without a resident goroutine: nothing is running and nothing will
+					time.Sleep(300 * time.Millisecond)
+					if !answered() {
+						verdict, dump = "never", "(no goroutine of the group is running f or waiting to)"
+						break
+					}
+				}
+			}
+			if verdict == "never" {
+				kind := "Trigger"
+				if pot {
+					kind = "PeriodicOrTrigger(1h)"
+				}
+				c.Violation("trigger-lost", fmt.Sprintf("trig-end-sweep: round %d: a call of the trigger function of one %s was aimed at the end of a run of f (f spins %d iterations) and the caller blocked on a channel right after it; runs begun before the call: %d, begun now: %d: no run began after the call and none ever will", n, kind, fs, seenB.Load(), begun.Load()),
+					map[string]any{"round": n, "goroutines": dump})
+				park <- struct{}{}
+				stopAll()
+				r.Eval(judged)
+				r.Count("trig-sweep", "end-of-run rounds", judged)
+				return
+			} else if verdict == "inconclusive" {
+				r.Inconclusive("trig-end-sweep: not answered and not provably idle")
+				park <- struct{}{}
+				stopAll()
+				return
+			}
+		}
+		judged++
+		park <- struct{}{}
+	}
+	stopAll()
+	r.Eval(judged)
+	r.Count("trig-sweep", "end-of-run rounds", judged)
+}
+
+// trigChain: a chain reaction per trigger function: its single caller makes the next call as soon
+// as a run of f has announced itself, and f then lingers for a swept number of iterations, so that
+// calls keep arriving around the moment a run ends; right after each call the caller yields its P.
+// Afterwards the group is quiet and every trigger function must still work: one call, one run that
+// begins after it (a trigger that has gone dead under the load answers nothing any more).
+func trigChain(c *vkit.Case) {
+	r := c.R
+	n := 4
+	iters := int64(r.Scale(250000, 400000))
+	if runtime.GOMAXPROCS(0) < 4 {
+		iters /= 10
+	}
+	grp := xsync.NewGroup(context.Background())
+	type tr struct {
+		runs atomic.Int64
+		flag atomic.Int32
+		_    [40]byte
+		fn   func()
+	}
+	ts := make([]*tr, n)
+	for i := range ts {
+		t := &tr{}
+		salt := int64(c.Rand.Intn(1500))
+		f := func(ctx context.Context) {
+			k := t.runs.Add(1)
+			t.flag.Store(1)
+			for spin := (k*37 + salt) % 1500; spin > 0; spin-- {
+				runtime.KeepAlive(spin)
+			}
+		}
+		if i == n-1 && c.Index%2 == 1 {
+			t.fn = grp.PeriodicOrTrigger(time.Hour, 0, f)
+		} else {
+			t.fn = grp.Trigger(f)
+		}
+		ts[i] = t
+	}
+	var wg sync.WaitGroup
+	var stalled atomic.Int32
+	for _, t := range ts {
+		t := t
+		wg.Add(1)
+		go func() {
+			defer wg.Done()
+			for i := int64(0); i < iters; i++ {
+				t.fn()
+				t0 := time.Now()
+				for spins := 0; t.flag.Load() == 0; spins++ {
+					runtime.Gosched()
+					if spins%1024 == 1023 && time.Since(t0) > 2*time.Second {
+						stalled.Add(1) // probably dead already: the final check decides
+						return
+					}
+				}
+				t.flag.Store(0)
+			}
+		}()
+	}
+	wg.Wait()
+	time.Sleep(100 * time.Millisecond) // runs owed to the load
+	for i, t := range ts {
+		before := t.runs.Load()
+		t.fn()
+		ok := false
+		for t0 := time.Now(); time.Since(t0) < 2*time.Second; {
+			if t.runs.Load() > before {
+				ok = true
+				break
+			}
+			time.Sleep(200 * time.Microsecond)
+		}
+		r.Eval(1)
+		if !ok {
+			_, parked := loopParked()
+			running := vkit.CountGoroutines(func(g vkit.G) bool { return g.Has("main.trigChain.func") && g.Has("xsync.") })
+			if parked || running == 0 {
+				c.Violation("trigger-lost", fmt.Sprintf("trig-chain: after %d chained calls (each made when a run had announced itself, f lingering a swept time) trigger function %d answers nothing any more: one call on the quiet group was not followed by a run of f within 2 s and nothing of the group is running", iters, i), nil)
+			} else {
+				r.Inconclusive("trig-chain: final call not answered but something is still running")
+			}
+		}
+	}
+	if stalled.Load() > 0 {
+		r.Count("trig-sweep", "chains that stalled for 2 s under load", int(stalled.Load()))
+	}
+	r.Count("trig-sweep", "chained calls", int(iters)*n)
+	grp.StopAndWait()
+}
